@@ -62,6 +62,11 @@ type World struct {
 	SilKeyOf map[string]string
 	logW     io.Writer
 	Online   *Verdict
+	// PostAction, when set, runs on the driver after every executed action.
+	PostAction func(idx int)
+	mu         sync.Mutex
+	asyncGoids map[uint64]bool
+	Scratch    map[string]any // per-run state of property-specific handlers
 	holdMu   sync.Mutex
 	holdHits map[string]int
 }
@@ -176,6 +181,40 @@ func (w *World) hookGet(key string, args ...any) any {
 	return nil
 }
 
+// goid returns the current goroutine's id (simulation only).
+func goid() uint64 {
+	var buf [64]byte
+	n := runtime.Stack(buf[:], false)
+	var id uint64
+	for _, c := range buf[len("goroutine "):n] {
+		if c < '0' || c > '9' {
+			break
+		}
+		id = id*10 + uint64(c-'0')
+	}
+	return id
+}
+
+// MarkAsync tags the calling goroutine: holds whose Match is "@async" apply only to tagged goroutines.
+func (w *World) MarkAsync(on bool) {
+	w.mu.Lock()
+	if w.asyncGoids == nil {
+		w.asyncGoids = map[uint64]bool{}
+	}
+	if on {
+		w.asyncGoids[goid()] = true
+	} else {
+		delete(w.asyncGoids, goid())
+	}
+	w.mu.Unlock()
+}
+
+func (w *World) isAsync() bool {
+	w.mu.Lock()
+	defer w.mu.Unlock()
+	return w.asyncGoids[goid()]
+}
+
 func (w *World) hookYield(site string, args ...any) {
 	if len(w.Plan.Holds) == 0 {
 		return
@@ -187,6 +226,14 @@ func (w *World) hookYield(site string, args ...any) {
 		}
 		if key == "" {
 			key = w.canonYield(site, args)
+		}
+		if strings.HasPrefix(h.Match, "@async") {
+			if !w.isAsync() || !strings.Contains(key, strings.TrimPrefix(h.Match, "@async")) {
+				continue
+			}
+			w.H.Fire("hold:" + site)
+			time.Sleep(h.Delay)
+			return
 		}
 		if h.Match == "" || strings.Contains(key, h.Match) {
 			w.H.Fire("hold:" + site)
@@ -521,6 +568,10 @@ func (w *World) PostAlerts(i, action int, alerts []PAlert) (int, string) {
 }
 
 func silenceBody(id string, s *PSilence, now time.Time) string {
+	return silenceBodyAt(id, s, now.Add(s.StartOff), now.Add(s.EndOff))
+}
+
+func silenceBodyAt(id string, s *PSilence, start, end time.Time) string {
 	type pm struct {
 		Name    string `json:"name"`
 		Value   string `json:"value"`
@@ -535,7 +586,7 @@ func silenceBody(id string, s *PSilence, now time.Time) string {
 		CreatedBy string `json:"createdBy"`
 		Comment   string `json:"comment"`
 	}
-	x := ps{ID: id, StartsAt: rfc(now.Add(s.StartOff)), EndsAt: rfc(now.Add(s.EndOff)), CreatedBy: s.CreatedBy, Comment: s.Comment}
+	x := ps{ID: id, StartsAt: rfc(start), EndsAt: rfc(end), CreatedBy: s.CreatedBy, Comment: s.Comment}
 	if x.CreatedBy == "" {
 		x.CreatedBy = "sim"
 	}
@@ -559,7 +610,25 @@ func (w *World) PostSilence(i, action int, s *PSilence) (int, string) {
 			id = "00000000-0000-0000-0000-000000000000"
 		}
 	}
-	code, body := w.Do(i, action, "POST", "/api/v2/silences", silenceBody(id, s, time.Now()))
+	if s.RawID != "" {
+		id = s.RawID
+	}
+	now := time.Now()
+	start, end := now.Add(s.StartOff), now.Add(s.EndOff)
+	if (s.KeepStart || s.KeepEnd) && id != "" {
+		if c, b := w.Do(i, -1, "GET", "/api/v2/silence/"+id, ""); c == 200 {
+			var cur APISilence
+			if json.Unmarshal([]byte(b), &cur) == nil {
+				if s.KeepStart {
+					start = cur.StartsAt
+				}
+				if s.KeepEnd {
+					end = cur.EndsAt
+				}
+			}
+		}
+	}
+	code, body := w.Do(i, action, "POST", "/api/v2/silences", silenceBodyAt(id, s, start, end))
 	if code != 200 {
 		return code, ""
 	}
